@@ -215,7 +215,7 @@ class Check:
         key = f["key"]
         if key not in self.known_printed:
             self.known_printed.append(key)
-            print("KNOWN-FINDING: property=%s %s: %s" % (self.pid, key, what), flush=True)
+            print("KNOWN-FINDING: property=%s %s: %s" % (self.pid, key, " ".join(str(what).split())[:400]), flush=True)
             self.cov["known_findings_printed"].append(key)
 
     def violation(self, kind, detail, case=None, found_input=True, theorem=None, expected=None, actual=None):
